@@ -558,8 +558,10 @@ def _corpus(tier: str):
         ("text", ["", "ascii", "h\xe9llo", "€", "\U0001f600", "x" * 255, "x" * 256, "\xe9" * 128, "line\nbreak", "back\\slash", "quote'\""]),
         ("bytes", [b"", b"abc", b"\x00\xff", b"x" * 255, b"x" * 256]),
         ("tuples", [(), (1,), (1, 2), (1, 2, 3), (1, 2, 3, 4)]),
-        ("containers", [{"a": 1, "b": [1, 2, {"c": (3,)}]}, {1, 2}, frozenset({3})]),
-        ("shared-and-recursive", [shared, shared, rec]),
+        ("containers", [{"a": 1, "b": [1, 2, {"c": (3,)}]}, {1, 2}, [[], [[]], ()], {"k": {"k": {}}}]),
+        ("frozenset", [frozenset({3}), frozenset()]),
+        ("shared", [shared, shared, {"x": shared}]),
+        ("recursive", [rec]),
         ("reduce-and-newobj", [collections.OrderedDict(a=1), fractions.Fraction(1, 3), datetime.date(2020, 1, 2), complex(1, 2), range(3), slice(1, 2)]),
         ("global-only", [collections.OrderedDict, len]),
     ]
